@@ -88,14 +88,14 @@ def h_dt(l, r, N, mode, ext=True, pre=0):
     return body
 
 
-def h_ct(l, r, ns, mode, grid=None, parts=None, pastify=False):
+def h_ct(l, r, ns, mode, grid=None, parts=None, pastify=False, unit=None):
     l, r = T(l), T(r)
     vs = sorted(variables(l) | variables(r))
 
     def body(env):
         A = env.A
-        sl = ct.make_spec(mode, 'out = ' + text(l), vs, pastify=pastify)
-        sr = ct.make_spec(mode, 'out = ' + text(r), vs, pastify=pastify)
+        sl = ct.make_spec(mode, 'out = ' + text(l), vs, pastify=pastify, unit=unit)
+        sr = ct.make_spec(mode, 'out = ' + text(r), vs, pastify=pastify, unit=unit)
         sigs = {v: ct.signal(env, v, n, 'zero', grid=grid) for v, n in zip(vs, ns)}
         mk = lambda: [[v, [list(p) for p in sigs[v]]] for v in vs]
         if mode == 'offline':
@@ -172,7 +172,18 @@ def obligations(tier, rng):
         chunked.append(('dual-O-nested/%d,%d;%d,%d' % (a, b, c, d), ('not', ('once_t', ('once_t', X, c, d), a, b)), ('historically_t', ('not', ('once_t', X, c, d)), a, b), False))
         chunked.append(('FF/%d,%d;%d,%d' % (a, b, c, d), ('eventually_t', ('eventually_t', X, c, d), a, b), ('eventually_t', X, a + c, b + d), True))
         chunked.append(('dual-F-nested/%d,%d;%d,%d' % (a, b, c, d), ('not', ('eventually_t', ('eventually_t', X, c, d), a, b)), ('always_t', ('not', ('eventually_t', X, c, d)), a, b), True))
+    # the same NUMBER with different units in one interval ([1ms,1s] is not punctual); dense time, so the window costs no samples
+    R = lambda txt, f: ('raw', txt, f)
+    chunked.append(('FF-units/1ms,1s;0,1s', R('eventually[1ms,1s](eventually[0,1s](x))', ('eventually_t', ('eventually_t', X, 0, 1), 0, 1)), R('eventually[1ms,2s](x)', ('eventually_t', X, 0, 2)), True))
+    chunked.append(('dual-F-units/2ms,2s', R('not(eventually[2ms,2s](x))', ('not', ('eventually_t', X, 0, 2))), R('always[2ms,2s](not(x))', ('always_t', ('not', X), 0, 2)), True))
+    chunked.append(('OO-units/1ms,1s;0,1s', R('once[1ms,1s](once[0,1s](x))', ('once_t', ('once_t', X, 0, 1), 0, 1)), R('once[1ms,2s](x)', ('once_t', X, 0, 2)), False))
     for name, l, r, pst in chunked:
+        if '-units/' in name:
+            # default unit ms (so that 1 ms and 1 s are exact numbers), samples every 500 ms
+            for parts in ([[0, 1, 2], [3, 4, 5]], [[0], [1], [2], [3], [4], [5]]):
+                out.append(ob('C18', 'ct', 'ct-online-chunked/%s/%s' % (name, ';'.join(','.join(map(str, q)) for q in parts)), l=l, r=r, ns=[6], mode='online',
+                              grid=[0, 500, 1000, 1500, 2000, 3000], parts=parts, pastify=pst, unit='ms', max_paths=60000, wall=1200))
+            continue
         for parts in ([[0, 1, 2], [3, 4, 5]], [[0], [1], [2], [3], [4], [5]]) if quick else ([[0, 1, 2], [3, 4, 5]], [[0], [1], [2], [3], [4], [5]], [[0, 1], [2, 3, 4], [5]], [[0, 1, 2, 3], [4], [5]]):
             out.append(ob('C18', 'ct', 'ct-online-chunked/%s/%s' % (name, ';'.join(','.join(map(str, q)) for q in parts)), l=l, r=r, ns=[6], mode='online', grid=g6, parts=parts,
                           pastify=pst, max_paths=60000, wall=1200))
